@@ -55,6 +55,10 @@ def run_job(job):
     try:
         harness = load_harness(job['harness'], job['params'])
         eng = E.Engine(timeout_ms=job.get('solver_timeout_ms', 10000))
+        if job.get('xsolver_cap'):
+            eng.export = []
+            eng.export_cap = job['xsolver_cap']
+            eng.export_stride = job.get('xsolver_stride', 1)
         prof = FuncProfile()
         first = [True]
         outcomes = collections.Counter()
@@ -100,6 +104,11 @@ def run_job(job):
         out['nontrivial'] = nontrivial[0]
         out['functions'] = sorted(prof.seen)
         out['inconclusive'] = inconcl[:20]
+        if eng.export is not None:
+            from vk.xcheck import second_solver
+            out['xsolver'] = second_solver.crosscheck(eng.export)
+            out['xsolver']['of_queries'] = eng.export_seen
+            eng.export = None
         # dedupe violations per (rule, fingerprint) and replay them concretely
         seen = {}
         for v in viols:
@@ -148,11 +157,24 @@ def _init_worker():
         pass
 
 
+def with_xsolver(jobs, cap, stride=1):
+    """Ask for the second-solver cross-check (vk.xcheck.second_solver) on up to `cap` queries per job, every stride-th."""
+    for j in jobs:
+        j['xsolver_cap'] = cap
+        j['xsolver_stride'] = stride
+    return jobs
+
+
 def run_jobs(jobs, nproc=None, progress=False, deadline_s=None):
     """Run jobs in a process pool.  Jobs with 'split_depth' are expanded into
     sub-jobs (one per decision prefix) which are then run too."""
     nproc = nproc or min(16, os.cpu_count() or 4)
     results = []
+    dcap = int(os.environ.get('VK_XSOLVER_CAP', '150') or 0)
+    if dcap:
+        for j in jobs:      # default: a strided sample of every job's solver queries is re-decided by cvc5
+            j.setdefault('xsolver_cap', dcap)
+            j.setdefault('xsolver_stride', int(os.environ.get('VK_XSOLVER_STRIDE', '5')))
     t0 = time.perf_counter()
     ctx = mp.get_context('forkserver')
     with ctx.Pool(nproc, initializer=_init_worker, maxtasksperchild=50) as pool:
@@ -289,6 +311,12 @@ class Report:
             if not r['complete'] and not r.get('prefixes'):
                 incomplete.append(r['id'])
             n_inconcl += len(r.get('inconclusive') or [])
+            if r.get('xsolver'):
+                from vk.xcheck import second_solver
+                xs = second_solver.merge(self.side.setdefault('second_solver_cvc5', {'engine': 'cvc5 1.0.3 binary, --incremental, one process per job'}), r['xsolver'])
+                xs['of_z3_queries'] = xs.get('of_z3_queries', 0) + r['xsolver'].get('of_queries', 0)
+                for d in r['xsolver']['disagree'][:2]:
+                    self.harness_errors.append(f"solvers disagree on a query of job {r['id']}: z3 {d['z3']}, cvc5 {d['cvc5']}: {d.get('smt2', '')[:600]}")
             if len(samples) < 6 and r['samples']:
                 samples.append({'job': r['id'], 'params': r['params'], 'path': r['samples'][0]})
             for v in r['violations']:
